@@ -1,6 +1,6 @@
 SPECIFICATION MSpec
 CONSTANTS
- DescPlatStrict = FALSE
+ DescPlatStrict = TRUE
  PlatLookupStrict = FALSE
  ReadFaults = FALSE
  EqualAnnStrict = FALSE
